@@ -45,7 +45,7 @@ fn visible(f: &Fold) -> Fold {
         .collect()
 }
 
-fn tomb_upd(key: &str, t: u64, r: u64) -> Upd {
+pub fn tomb_upd(key: &str, t: u64, r: u64) -> Upd {
     lww_upd(key, b"", t, r, true)
 }
 
@@ -118,7 +118,7 @@ fn classify(before: &Fold, after: &Fold, tombs_removed: u64, all: &[Upd], cutoff
 }
 
 /// flush the layout (one segment per group), compact, compare recovery before / after
-async fn layout_case(out: &mut Out, groups: &[Vec<Upd>], c: &CCfg, read_fault: Option<(u64, Fault)>, tag: &str, expect_known: bool) {
+pub async fn layout_case(out: &mut Out, groups: &[Vec<Upd>], c: &CCfg, read_fault: Option<(u64, Fault)>, tag: &str, expect_known: bool) {
     let mut p = Proc::new(out, 1, &[]).await;
     let mut all: Vec<Upd> = Vec::new();
     for (gi, g) in groups.iter().enumerate() {
@@ -141,6 +141,7 @@ async fn layout_case(out: &mut Out, groups: &[Vec<Upd>], c: &CCfg, read_fault: O
             json!({"workload": p.text, "now_ms": c.now, "tombstone_ttl_ms": c.ttl.as_millis().to_string(), "target": c.target, "min": c.min, "max_per_compaction": c.maxper}));
     }
     let after = p.rec(out).await;
+    p.man(out);
     let read_recs = p.store.inner.lock().unwrap().read_faults.clone();
     let undetectable = !p.undetectable().is_empty();
     p.commit(out);
@@ -293,6 +294,8 @@ async fn production_clock_witness(out: &mut Out) {
 // ---------------------------------------------------------------------------------------------
 
 struct RaceResult {
+    /// task tag of every logged store call
+    tags: Vec<usize>,
     done: [bool; 2],
     flush_ok: Option<bool>,
     compact: Option<String>,
@@ -320,13 +323,14 @@ async fn race_run(schedule: &[u8], finish: bool) -> RaceResult {
         let mut g = store.inner.lock().unwrap();
         g.gate = Some([0, 0]);
         g.log.clear();
+        g.log_tags.clear();
         g.snapshots.clear();
         g.calls = 0;
         g.record = true;
     }
     let waker = noop_waker();
     let mut cx = Context::from_waker(&waker);
-    let mut res = RaceResult { done: [false, false], flush_ok: None, compact: None, image: BTreeMap::new(), calls: Vec::new() };
+    let mut res = RaceResult { tags: Vec::new(), done: [false, false], flush_ok: None, compact: None, image: BTreeMap::new(), calls: Vec::new() };
     {
         let mut f0 = Box::pin(pers.flush());
         let mut f1 = Box::pin(comp.compact());
@@ -370,7 +374,31 @@ async fn race_run(schedule: &[u8], finish: bool) -> RaceResult {
     let g = store.inner.lock().unwrap();
     res.image = g.objects.clone();
     res.calls = g.log.clone();
+    res.tags = g.log_tags.clone();
     res
+}
+
+/// Do the two read-modify-write sections on the manifest OVERLAP in this schedule?  (flush: its
+/// `get manifest.json` … its `rename`; compaction: likewise.)  The known flush-race findings all
+/// need an overlap — one task writes a manifest computed from a snapshot the other has replaced
+/// meanwhile.  When the sections are serialized the unchanged tree is correct, so a violation
+/// there has ANOTHER cause and must not be absorbed by the listed signatures.
+fn manifest_sections_overlap(r: &RaceResult) -> bool {
+    let pos = |tag: usize, pred: &dyn Fn(&str) -> bool| -> Option<usize> {
+        r.calls.iter().zip(r.tags.iter()).position(|(l, t)| *t == tag && pred(l))
+    };
+    let is_load = |l: &str| l.contains(":get ") && l.ends_with("manifest.json");
+    let is_save = |l: &str| l.contains(":rename ");
+    let (fl, fs) = (pos(0, &is_load), pos(0, &is_save));
+    let (cl, cs) = (pos(1, &is_load), pos(1, &is_save));
+    match (fl, cl) {
+        (Some(fl), Some(cl)) => {
+            let fs = fs.unwrap_or(usize::MAX);
+            let cs = cs.unwrap_or(usize::MAX);
+            fl < cs && cl < fs
+        }
+        _ => false,
+    }
 }
 
 /// depth-first enumeration of all interleavings at store-call granularity
@@ -398,25 +426,29 @@ async fn enumerate_races(out: &mut Out) {
         let rec = recover_image(&r.image, 1).await;
         let refs = refs_complete(&r.image);
         let mut bad = false;
+        // cause: the listed flush-race findings need overlapping manifest sections
+        let overlap = manifest_sections_overlap(&r);
+        out.count(if overlap { "interleaving:manifest-sections-overlap" } else { "interleaving:manifest-sections-serialized" });
+        let known = |sig: &str| -> String { if overlap { sig.to_string() } else { format!("{}:with-serialized-manifest-updates", sig) } };
         match fold_of(&rec) {
             None => {
                 bad = true;
-                out.violation("C13:flush-race:recovery-fails", "after an interleaving of flush() and compact() the manifest references a deleted / overwritten object: recovery fails", replay.clone());
+                out.violation(&known("C13:flush-race:recovery-fails"), "after an interleaving of flush() and compact() the manifest references a deleted / overwritten object: recovery fails", replay.clone());
             }
             Some(f) => {
                 let has = |u: &Upd| f.iter().any(|(k, v)| k == &u.0 && *v == MRv::from_real(&u.1));
                 if !base.iter().all(|u| has(u)) {
                     bad = true;
-                    out.violation("C13:flush-race:compacted-data-lost", "after an interleaving of flush() and compact() previously flushed updates are gone", replay.clone());
+                    out.violation(&known("C13:flush-race:compacted-data-lost"), "after an interleaving of flush() and compact() previously flushed updates are gone", replay.clone());
                 }
                 if r.flush_ok == Some(true) && !has(&n) {
                     bad = true;
-                    out.violation("C13:flush-race:confirmed-flush-lost", "flush() returned Ok while a compaction was running and its update is not recovered (both allocated manifest.next_segment_id; the compactor's put / manifest swap overwrote it)", replay.clone());
+                    out.violation(&known("C13:flush-race:confirmed-flush-lost"), "flush() returned Ok while a compaction was running and its update is not recovered (both allocated manifest.next_segment_id; the compactor's put / manifest swap overwrote it)", replay.clone());
                 }
             }
         }
         if !refs && !bad {
-            out.violation("C13:flush-race:recovery-fails", "manifest references an incomplete object after an interleaving", replay.clone());
+            out.violation(&known("C13:flush-race:recovery-fails"), "manifest references an incomplete object after an interleaving", replay.clone());
         }
         out.count(if bad { "interleaving:violating" } else { "interleaving:ok" });
         out.case(&format!("race:{}", sched), true);
@@ -594,18 +626,22 @@ pub fn run(a: &Args) {
     let mut rng = Rng::new(a.seed);
     let rt = tokio::runtime::Builder::new_current_thread().enable_all().build().unwrap();
     rt.block_on(async {
+        {
+            let mark = out.n_ops();
+            let o = &mut out;
+            let r = crate::c12::guarded(async {
         let all = CCfg { target: 1 << 20, min: 2, maxper: 5, now: 0, ttl: std::time::Duration::ZERO };
         // corpus: the kernel-checked counterexamples of Props/C13.lean on the real code
-        layout_case(&mut out, &[vec![lww_upd("k", b"1", 5, 1, false)], vec![lww_upd("k", b"2", 5, 2, false)]], &all, None, "corpus:equal-times", true).await;
+        layout_case(&mut *o, &[vec![lww_upd("k", b"1", 5, 1, false)], vec![lww_upd("k", b"2", 5, 2, false)]], &all, None, "corpus:equal-times", true).await;
         let mut e1 = lww_upd("e", b"1", 3, 1, false);
         e1.1.expiry_ms = Some(100000);
-        layout_case(&mut out, &[vec![e1], vec![lww_upd("e", b"2", 4, 1, false)]], &all, None, "corpus:expiry", true).await;
-        layout_case(&mut out, &[vec![hash_upd("h", &[("f", b"1", 1, 1)], 1, 1)], vec![hash_upd("h", &[("g", b"2", 2, 2)], 2, 2)]], &all, None, "corpus:hash", true).await;
+        layout_case(&mut *o, &[vec![e1], vec![lww_upd("e", b"2", 4, 1, false)]], &all, None, "corpus:expiry", true).await;
+        layout_case(&mut *o, &[vec![hash_upd("h", &[("f", b"1", 1, 1)], 1, 1)], vec![hash_upd("h", &[("g", b"2", 2, 2)], 2, 2)]], &all, None, "corpus:hash", true).await;
         // older value in a segment over the size target; the tombstone IS older than the cutoff
         let big: Vec<Upd> = std::iter::once(lww_upd("t", b"x", 3, 1, false))
             .chain((0..12).map(|i| lww_upd(&format!("pad{}", i), &[b'x'; 30], 1, 1, false)))
             .collect();
-        layout_case(&mut out, &[big, vec![tomb_upd("t", 5, 1)], vec![lww_upd("u", b"1", 6, 1, false)]],
+        layout_case(&mut *o, &[big, vec![tomb_upd("t", 5, 1)], vec![lww_upd("u", b"1", 6, 1, false)]],
             &CCfg { target: 1000, min: 2, maxper: 5, now: 100, ttl: std::time::Duration::ZERO }, None, "corpus:older-value-in-skipped-segment", true).await;
         // the dropped tombstone carries an expiry (record_delete keeps expiry_ms) that the merge with a
         // newer value in an uncompacted segment retains (max of expiries): GC removes it
@@ -616,7 +652,7 @@ pub fn run(a: &Args) {
         let bigk: Vec<Upd> = std::iter::once(lww_upd("k", b"v16", 8, 1, false))
             .chain((0..12).map(|i| lww_upd(&format!("pad{}", i), &[b'x'; 30], 1, 1, false)))
             .collect();
-        layout_case(&mut out, &[vec![v13], vec![td], bigk],
+        layout_case(&mut *o, &[vec![v13], vec![td], bigk],
             &CCfg { target: 1000, min: 2, maxper: 5, now: 100, ttl: std::time::Duration::ZERO }, None, "corpus:expiry-of-dropped-tombstone", true).await;
         // same with the vector clock (Causal mode, two replicas): the dropped tombstone of r1 contributed
         // {r1:2} to the merged vector clock of r2's newer write
@@ -629,47 +665,63 @@ pub fn run(a: &Args) {
         let bigv: Vec<Upd> = std::iter::once(with_vc(lww_upd("k", b"b", 8, 2, false), &[(2, 1)]))
             .chain((0..12).map(|i| lww_upd(&format!("pad{}", i), &[b'x'; 30], 1, 1, false)))
             .collect();
-        layout_case(&mut out, &[vec![with_vc(lww_upd("k", b"a", 5, 1, false), &[(1, 1)])], vec![with_vc(tomb_upd("k", 6, 1), &[(1, 2)])], bigv],
+        layout_case(&mut *o, &[vec![with_vc(lww_upd("k", b"a", 5, 1, false), &[(1, 1)])], vec![with_vc(tomb_upd("k", 6, 1), &[(1, 2)])], bigv],
             &CCfg { target: 1000, min: 2, maxper: 5, now: 100, ttl: std::time::Duration::ZERO }, None, "corpus:vclock-of-dropped-tombstone", true).await;
         // three candidates of uneven sizes, max_segments_per_compaction = 2: oldest-first takes the
         // large old segment (k = v1) together with k's expired tombstone — must pass
         let seg0: Vec<Upd> = std::iter::once(lww_upd("k", b"v1", 10, 1, false))
             .chain((0..8).map(|i| lww_upd(&format!("pad{}", i), b"padding-value", 11 + i, 1, false)))
             .collect();
-        layout_case(&mut out, &[seg0, vec![tomb_upd("k", 20, 1)], vec![lww_upd("x", b"1", 30, 1, false)]],
+        layout_case(&mut *o, &[seg0, vec![tomb_upd("k", 20, 1)], vec![lww_upd("x", b"1", 30, 1, false)]],
             &CCfg { target: 1 << 20, min: 2, maxper: 2, now: 100, ttl: std::time::Duration::ZERO }, None, "corpus:uneven-candidates-maxper-2", true).await;
         // one read of the pass comes back with a flipped byte in the record region (checksum fails,
         // some positions still decode): the segment must be skipped, recovery unchanged
         for pm in [350u16, 450, 550, 650, 750, 850] {
-            layout_case(&mut out, &[vec![lww_upd("k", b"value-one", 5, 1, false)], vec![lww_upd("l", b"value-two", 6, 1, false)], vec![lww_upd("m", b"value-three", 7, 1, false)]],
+            layout_case(&mut *o, &[vec![lww_upd("k", b"value-one", 5, 1, false)], vec![lww_upd("l", b"value-two", 6, 1, false)], vec![lww_upd("m", b"value-three", 7, 1, false)]],
                 &CCfg { target: 1 << 20, min: 1, maxper: 5, now: 0, ttl: std::time::Duration::ZERO }, Some((1, Fault::ReadFlip { permille: pm, n: 1, mask: 1, persistent: false })), "corpus:pass-read-flip", true).await;
         }
         // tombstone GC in a pass that SKIPPED the older segment holding the key's value (its read
         // came back empty): the tombstone is dropped, the value resurfaces
-        layout_case(&mut out, &[vec![lww_upd("k", b"old", 5, 1, false)], vec![tomb_upd("k", 8, 1)], vec![lww_upd("u", b"1", 9, 1, false)]],
+        layout_case(&mut *o, &[vec![lww_upd("k", b"old", 5, 1, false)], vec![tomb_upd("k", 8, 1)], vec![lww_upd("u", b"1", 9, 1, false)]],
             &CCfg { target: 1 << 20, min: 2, maxper: 5, now: 100, ttl: std::time::Duration::ZERO }, Some((0, Fault::ReadEmpty { persistent: false })), "corpus:gc-skipped-unreadable-segment", true).await;
         // "never collect": TTL u64::MAX ms / Duration::MAX — no tombstone may be dropped (cutoff 0)
         for ttl in [std::time::Duration::from_millis(u64::MAX), std::time::Duration::MAX, std::time::Duration::from_millis(1u64 << 63)] {
             let big2: Vec<Upd> = std::iter::once(lww_upd("t", b"x", 3, 1, false))
                 .chain((0..12).map(|i| lww_upd(&format!("pad{}", i), &[b'x'; 30], 1, 1, false)))
                 .collect();
-            layout_case(&mut out, &[big2, vec![tomb_upd("t", 5, 1)], vec![lww_upd("u", b"1", 6, 1, false)]],
+            layout_case(&mut *o, &[big2, vec![tomb_upd("t", 5, 1)], vec![lww_upd("u", b"1", 6, 1, false)]],
                 &CCfg { target: 1000, min: 2, maxper: 5, now: 1000, ttl }, None, "corpus:ttl-never-collect", true).await;
         }
         // TTL 2^64 + 384 ms: `as_millis() as u64` wraps to 384 ms
         let big3: Vec<Upd> = std::iter::once(lww_upd("t", b"x", 3, 1, false))
             .chain((0..12).map(|i| lww_upd(&format!("pad{}", i), &[b'x'; 30], 1, 1, false)))
             .collect();
-        layout_case(&mut out, &[big3, vec![tomb_upd("t", 5, 1)], vec![lww_upd("u", b"1", 6, 1, false)]],
+        layout_case(&mut *o, &[big3, vec![tomb_upd("t", 5, 1)], vec![lww_upd("u", b"1", 6, 1, false)]],
             &CCfg { target: 1000, min: 2, maxper: 5, now: 1000, ttl: std::time::Duration::from_secs(18446744073709552) }, None, "corpus:ttl-wraps-u64", true).await;
-        production_clock_witness(&mut out).await;
-        interleave_case(&mut out).await;
-        enumerate_races(&mut out).await;
-        for _ in 0..a.n {
-            let mut r = rng.fork();
-            random_case(&mut out, &mut r).await;
+            }).await;
+            if let Err(msg) = r {
+                crate::c12::report_panic(&mut out, "C13", "corpus", "witnesses of Props/C13.lean", mark, &msg);
+            }
         }
+        { let mark = out.n_ops(); if let Err(msg) = crate::c12::guarded(production_clock_witness(&mut out)).await { crate::c12::report_panic(&mut out, "C13", "production-clock", "witness", mark, &msg); } }
+        { let mark = out.n_ops(); if let Err(msg) = crate::c12::guarded(interleave_case(&mut out)).await { crate::c12::report_panic(&mut out, "C13", "interleave", "model interleaving", mark, &msg); } }
+        { let mark = out.n_ops(); if let Err(msg) = crate::c12::guarded(enumerate_races(&mut out)).await { crate::c12::report_panic(&mut out, "C13", "races", "enumeration", mark, &msg); } }
+        for i in 0..a.n {
+            let mut r = rng.fork();
+            let mark = out.n_ops();
+            if let Err(msg) = crate::c12::guarded(random_case(&mut out, &mut r)).await {
+                crate::c12::report_panic(&mut out, "C13", "layout", &format!("seed {} case {}", a.seed, i), mark, &msg);
+            }
+        }
+        // histories (repeated compactions), compact_if_needed / max_segments
+        { let mark = out.n_ops(); if let Err(msg) = crate::c12::guarded(crate::c13x::run_all(&mut out, &mut rng, a.n / 8 + 20, false)).await { crate::c12::report_panic(&mut out, "C13", "histories", &format!("seed {}", a.seed), mark, &msg); } }
+    });
+    // the real CompactionWorker loop under tokio's paused clock
+    let rt2 = tokio::runtime::Builder::new_current_thread().enable_all().start_paused(true).build().unwrap();
+    rt2.block_on(async {
+        { let mark = out.n_ops(); if let Err(msg) = crate::c12::guarded(crate::c13x::run_all(&mut out, &mut rng, a.n / 40 + 10, true)).await { crate::c12::report_panic(&mut out, "C13", "compaction-worker", &format!("seed {}", a.seed), mark, &msg); } }
     });
     let _ = (hex(b""), ReplicatedValue::new(ReplicaId::new(1)));
+    crate::stream_api::report(&mut out, "C13");
     out.finish("case = one segment layout: an update set (single replica with monotone stamps, or 1..3 replicas × 1..16 shards with interleaved clocks, hashes, tombstones, expiries, 1/8 type changes) split into 2..6 segments (1/8 duplicated) by the real StreamingPersistence, compacted by the real Compactor under a generated configuration (size target below some segments 1/2, max-per-compaction 2 (1/2) or 2..5, min 1..3, tombstone cutoff 0 / mid-range / above all stamps), recovered before and after; plus the exhaustive enumeration of all store-call interleavings of compact() and flush() on a 2-segment store; distinct by op text / schedule; non-trivial iff a compacted segment was written from ≥ 2 segments, or an interleaving leaf");
 }
